@@ -54,6 +54,14 @@ def run(ctx):
     # centres their midpoints
     from . import c10
     ctx.rule(c10.rule_bins, 'C14.R7')
+    # statistics are computed in floating point whatever the dtype of the observations: no result array allocated in,
+    # or cast to, the dtype of an argument (an integer value vector would truncate every mean)
+    from . import l2
+    ctx.rule(l2.rule_inplace_input_dtype, 'C14.R8', [
+        'emd._cycles_support.get_cycle_stat_from_samples', 'emd._cycles_support.get_slice_stat_from_samples',
+        'emd._cycles_support.get_augmented_cycle_stat_from_samples', 'emd._cycles_support.get_subset_stat_from_samples',
+        'emd._cycles_support.get_chain_stat_from_samples', 'emd._cycles_support.project_cycles_to_samples',
+        'emd.cycles.bin_by_phase', 'emd.cycles.phase_align', 'emd.cycles.get_cycle_stat'])
     l1.rule_lib_attrs(ctx, 'L1', ['emd.cycles.phase_align', 'emd.cycles.bin_by_phase', 'emd.cycles.get_cycle_stat'],
                       'cycle statistics')
 
